@@ -151,6 +151,10 @@ def check_case(spec: dict) -> dict:
         plain = scan_outcome(base, exclusions=(), regex_exclusions=())
         g_run = scan_outcome(base, exclusions=tuple(globs))
         r_run = scan_outcome(base, exclusions=(), regex_exclusions=tuple(regexes))
+        # the same two requests the way the documentation writes them: no patterns as exclusions=() alone, regular
+        # expressions as regex_exclusions=... alone
+        plain_alone = scan_outcome(base, exclusions=())
+        r_alone = scan_outcome(base, regex_exclusions=tuple(regexes))
         # external libraries included: an import of an excluded internal module must not bring that module back
         x_run = scan_outcome(base, exclusions=tuple(globs), exclude_external_libraries=False)
 
@@ -183,6 +187,12 @@ def check_case(spec: dict) -> dict:
         v("scan-error", plain[1])
     elif set(plain[1][0]) != all_mods or PS.drop_ancestor_imports(plain[1][1]) != all_imps:
         v("unfiltered-scan-unexpected", f"{sorted(plain[1][0])} vs {sorted(all_mods)}")
+    if plain[0] == "ok" and (plain_alone[0] != "ok" or plain_alone[1] != plain[1]):
+        v("no-patterns/exclusions-empty-tuple-alone", f"exclusions=() alone gives {plain_alone[1] if plain_alone[0] != 'ok' else 'another architecture'}, "
+          "exclusions=(), regex_exclusions=() gives the unfiltered scan")
+    if r_run[0] == "ok" and (r_alone[0] != "ok" or r_alone[1] != r_run[1]):
+        v("regex/regex_exclusions-alone", f"regex_exclusions={regexes} alone gives {r_alone[1] if r_alone[0] != 'ok' else 'another architecture'}, "
+          "together with exclusions=() it is applied")
     shapes = sorted({("*" if g.startswith("*") else "") + "text" + ("*" if g.endswith("*") else "") for g in spec["globs"]})
     for name, run in (("glob", g_run), ("regex", r_run)):
         if run[0] != "ok":
